@@ -25,6 +25,7 @@ type set struct {
 	pkgDir string         // relative to repo
 	hook   string         // file under hooks/
 	seams  map[string]int // func name -> expected number of parameters (flattened)
+	res    int            // number of results the seam functions have
 }
 
 var sets = map[string]set{
@@ -39,6 +40,8 @@ var sets = map[string]set{
 	"dil_arith_vec":  {pkgDir: "dilithium", hook: "dil_arith_vec.go.txt"},
 	"dil_sample_g1":  {pkgDir: "dilithium", hook: "dil_sample_g1.go.txt"},
 	"misc_codec":     {pkgDir: "misc", hook: "misc_codec.go.txt"},
+	// optional seam: the signer's z-norm test can be made to answer "reject" a chosen number of times
+	"dil_forcerej": {pkgDir: "dilithium", hook: "dil_forcerej.go.txt", seams: map[string]int{"polyVecLChkNorm": 2}, res: 1},
 }
 
 func die(f string, a ...any) {
@@ -82,7 +85,7 @@ func main() {
 		}
 		replace[filepath.Join(*repo, s.pkgDir, "zz_verif_"+name+".go")] = gen
 		if len(s.seams) > 0 {
-			if err := renameFuncs(*repo, s.pkgDir, *out, s.seams, replace); err != nil {
+			if err := renameFuncs(*repo, s.pkgDir, *out, s.seams, s.res, replace); err != nil {
 				die("%v", err)
 			}
 		}
@@ -96,7 +99,7 @@ func main() {
 // renameFuncs renames top-level functions `name` to `nameVerifOrig` in the current source
 // text (only the identifier in the declaration is touched; every call site keeps calling
 // `name`, which the dispatcher file defines).
-func renameFuncs(repo, pkgDir, out string, want map[string]int, replace map[string]string) error {
+func renameFuncs(repo, pkgDir, out string, want map[string]int, wantRes int, replace map[string]string) error {
 	dir := filepath.Join(repo, pkgDir)
 	ents, err := os.ReadDir(dir)
 	if err != nil {
@@ -140,8 +143,18 @@ func renameFuncs(repo, pkgDir, out string, want map[string]int, replace map[stri
 					cnt += len(fl.Names)
 				}
 			}
-			if cnt != np || (fd.Type.Results != nil && len(fd.Type.Results.List) > 0) {
-				return fmt.Errorf("seam %s has %d parameters / results, expected %d and none", fd.Name.Name, cnt, np)
+			nres := 0
+			if fd.Type.Results != nil {
+				for _, fl := range fd.Type.Results.List {
+					if len(fl.Names) == 0 {
+						nres++
+					} else {
+						nres += len(fl.Names)
+					}
+				}
+			}
+			if cnt != np || nres != wantRes {
+				return fmt.Errorf("seam %s has %d parameters / %d results, expected %d / %d", fd.Name.Name, cnt, nres, np, wantRes)
 			}
 			found[fd.Name.Name] = true
 			edits = append(edits, edit{fset.Position(fd.Name.End()).Offset})
